@@ -134,7 +134,7 @@ func Load(cfg LoadConfig) (*Program, error) {
 			return true
 		}
 		switch path {
-		case "context", "strings", "bytes", "sort", "unicode/utf8", "io", "math", "strconv", "regexp/syntax", "regexp":
+		case "context", "strings", "bytes", "sort", "unicode/utf8", "io", "math", "strconv", "regexp/syntax", "regexp", "flag":
 			return true
 		}
 		return false
